@@ -27,12 +27,16 @@ Composition modes of `generate_constraint` (Model/EmittedJoin.lean):
                                                     of `x0 = x1 ; x1 = 5` violates `x0 = x1`, the outer nesting satisfies both)
   join=and_ / or_ (mystic.constraints)              fixed_point_margin (a vector a solver leaves unchanged satisfies its
                                                     relation - for ALL systems, fed or not), member_idem,
-                                                    join_and_all_hold, join_and_identity, join_or_some_holds, join_or_identity;
+                                                    join_and_all_hold, join_and_independent (independent systems: and_ ALWAYS succeeds,
+                                                    draws nothing, all relations hold; generic part Proofs/AndSuccess.lean),
+                                                    join_and_identity, join_or_some_holds, join_or_total (or_ ALWAYS succeeds on statements that do
+                                                    not read their own target, draws nothing, one relation holds), join_or_identity;
                                                     compose_identity (every coupler list is the identity on feasible input)
 -/
 import MysticVerif.Proofs.Emitted
 import MysticVerif.Proofs.EmittedJoin
 import MysticVerif.Props.C17
+import MysticVerif.Proofs.AndSuccess
 
 set_option linter.unusedSectionVars false
 set_option linter.unusedVariables false
@@ -799,6 +803,203 @@ theorem join_or_some_holds [DecidableEq C] (env : Env C K) (isPos : C → Bool) 
     exact isBool_eval_nonneg env _ _ ((recognise_spec hrc).2.1 hc)
   · simp at hm
 
+/-- **`join=or_` always succeeds on statements that do not read their own target.** If the first solver member runs
+without raising at the input, `constraints.or_` over accepted, non-self-referential statements (fed or not) reports
+success without a random draw, and at least one relation of the text holds at the vector it returns. -/
+theorem join_or_total [DecidableEq C] (env : Env C K) (isPos : C → Bool) (d : C)
+    (hpos : ∀ c, isPos c = true → 0 < env.ι c) (htol : 0 ≤ env.tol) (hrel : 0 ≤ env.rel)
+    (rels : List (Rel C)) (codes : List (Assign C)) (x : List K) (draws : List Nat)
+    (hrec : List.Forall₂ (fun r c => recognise isPos d r c = true) rels codes)
+    (hfree : ∀ r ∈ rels, r.rhs.mentions r.i = false)
+    (hB : List.Forall₂ (fun r (c : Assign C) => c.factor.mentions r.i = false) rels codes)
+    (hstrict : ∀ r ∈ rels, r.cmp.strict = true → 0 < env.tol)
+    (hn : 0 < codes.length) (hdef0 : codes[0].defined env x = true) :
+    ∃ y t l st, joinOr env codes x draws = (.success y t l, st) ∧ st.draws = 0 ∧ ∃ r ∈ rels, r.holds env y := by
+  have hne : ∀ r ∈ rels, r.cmp = .ne → 0 < env.tol := fun r hr h => hstrict r hr (by rw [h]; rfl)
+  have h0 : member env codes 0 x = some (codes[0].exec env x) := by
+    unfold member
+    rw [List.getElem?_eq_getElem hn]
+    simp only
+    rw [if_pos hdef0]
+  have hid := member_idem env isPos d hpos htol hrel rels codes hrec hfree hB hne 0 _ _ h0
+  obtain ⟨y, t, l, st, hr, hd⟩ := Comb.or_succeeds (member env codes) id codes.length (100 * codes.length) x draws
+    hn (by omega) _ h0 hid
+  exact ⟨y, t, l, st, hr, hd, join_or_some_holds env isPos d hpos htol hrel rels codes x draws hrec hstrict y t l st hr⟩
+
+/-! ## `join=and_` on independent systems: guaranteed success -/
+
+/-- a statement for another variable preserves the margin of a relation that does not read that variable -/
+private theorem margin_exec_other (env : Env C K) (r' : Rel C) (B' : Expr C) (c : Assign C) (z : List K)
+    (hne : r'.i ≠ c.i) (hfree : r'.rhs.mentions c.i = false) (hB : B'.mentions c.i = false)
+    (h : r'.margin env B' z) : r'.margin env B' (c.exec env z) := by
+  have h1 : (c.exec env z).getD r'.i 0 = z.getD r'.i 0 := exec_getD_ne env c z _ hne
+  have h2 : r'.rhs.eval env (c.exec env z) = r'.rhs.eval env z := eval_set_of_not_mentions env z c.i _ _ hfree
+  have h3 : B'.eval env (c.exec env z) = B'.eval env z := eval_set_of_not_mentions env z c.i _ _ hB
+  obtain ⟨i, cmp, rhs⟩ := r'
+  cases cmp <;> simp only [Rel.margin] at h h1 h2 ⊢ <;> rw [h1, h2] <;> (try rw [h3]) <;> exact h
+
+/-- the hypotheses "independent isolated-form system, compiled by the current tree, at the input `x`" -/
+structure Indep [DecidableEq C] (env : Env C K) (isPos : C → Bool) (d : C) (rels : List (Rel C))
+    (codes : List (Assign C)) (x : List K) : Prop where
+  hrec : List.Forall₂ (fun r c => recognise isPos d r c = true) rels codes
+  hnodup : (rels.map (·.i)).Nodup
+  hfree : ∀ r ∈ rels, ∀ r' ∈ rels, r'.rhs.mentions r.i = false
+  hB : ∀ c ∈ codes, ∀ r ∈ rels, c.factor.mentions r.i = false
+  hlen : ∀ r ∈ rels, r.i < x.length
+  hne : ∀ r ∈ rels, r.cmp = .ne → 0 < env.tol
+  /-- no statement raises at a vector that has the input's non-target coordinates -/
+  hdef : ∀ c ∈ codes, ∀ z : List K, z.length = x.length →
+    (∀ j, (∀ r ∈ rels, r.i ≠ j) → z.getD j 0 = x.getD j 0) → c.defined env z = true
+
+section
+variable [DecidableEq C] {env : Env C K} {isPos : C → Bool} {d : C} {rels : List (Rel C)} {codes : List (Assign C)}
+  {x : List K}
+
+/-- first-pass states of `and_` over the solver members -/
+private abbrev S (env : Env C K) (codes : List (Assign C)) (x : List K) (k : Nat) : List K :=
+  Comb.seqF (member env codes) codes.length x k
+
+private theorem pair_at (h : Indep env isPos d rels codes x) (m : Nat) (hm : m < codes.length) :
+    ∃ (hm' : m < rels.length), recognise isPos d rels[m] codes[m] = true ∧ codes[m].i = rels[m].i ∧
+      rels[m] ∈ rels ∧ codes[m] ∈ codes := by
+  have hl := h.hrec.length_eq
+  have hm' : m < rels.length := by omega
+  have hr : recognise isPos d rels[m] codes[m] = true := List.forall₂_iff_get.mp h.hrec |>.2 m hm' hm
+  exact ⟨hm', hr, recognise_i hr, List.getElem_mem hm', List.getElem_mem hm⟩
+
+private theorem targets_ne (h : Indep env isPos d rels codes x) (m k : Nat) (hm : m < rels.length) (hk : k < rels.length)
+    (hmk : m ≠ k) : rels[m].i ≠ rels[k].i := by
+  intro heq
+  have h1 : (rels.map (·.i))[m]'(by simpa using hm) = (rels.map (·.i))[k]'(by simpa using hk) := by simpa using heq
+  exact hmk ((List.Nodup.getElem_inj_iff h.hnodup).mp h1)
+
+private theorem step (h : Indep env isPos d rels codes x) (k : Nat) (hk : k < codes.length)
+    (hl : (S env codes x k).length = x.length)
+    (hfr : ∀ j, (∀ r ∈ rels, r.i ≠ j) → (S env codes x k).getD j 0 = x.getD j 0) :
+    S env codes x (k + 1) = codes[k].exec env (S env codes x k) ∧
+      (Comb.applyM (member env codes (k % codes.length)) (S env codes x k)).2 = false := by
+  have hmod : k % codes.length = k := Nat.mod_eq_of_lt hk
+  have hmem : member env codes k (S env codes x k) = some (codes[k].exec env (S env codes x k)) := by
+    unfold member
+    rw [List.getElem?_eq_getElem hk]
+    simp only
+    rw [if_pos (h.hdef _ (List.getElem_mem hk) _ hl hfr)]
+  constructor
+  · show (Comb.applyM (member env codes (k % codes.length)) (S env codes x k)).1 = _
+    rw [hmod]; unfold Comb.applyM; rw [hmem]
+  · rw [hmod]; unfold Comb.applyM; rw [hmem]
+
+private theorem inv (h : Indep env isPos d rels codes x) (hpos : ∀ c, isPos c = true → 0 < env.ι c)
+    (htol : 0 ≤ env.tol) (hrel : 0 ≤ env.rel) :
+    ∀ k, k ≤ codes.length →
+      (S env codes x k).length = x.length ∧
+      (∀ j, (∀ r ∈ rels, r.i ≠ j) → (S env codes x k).getD j 0 = x.getD j 0) ∧
+      (∀ m (hm : m < k) (hmc : m < codes.length) (hmr : m < rels.length),
+        rels[m].margin env codes[m].factor (S env codes x k)) := by
+  intro k
+  induction k with
+  | zero => intro _; exact ⟨rfl, fun _ _ => rfl, fun m hm => by omega⟩
+  | succ k ih =>
+    intro hk
+    obtain ⟨hl, hfr, hmg⟩ := ih (by omega)
+    have hkc : k < codes.length := by omega
+    obtain ⟨hs, _⟩ := step h k hkc hl hfr
+    obtain ⟨hkr, hrc, hci, hrmem, hcmem⟩ := pair_at h k hkc
+    rw [hs]
+    refine ⟨by rw [exec_length]; exact hl, ?_, ?_⟩
+    · intro j hj
+      rw [exec_getD_ne env _ _ j (by rw [hci]; exact (hj _ hrmem).symm)]
+      exact hfr j hj
+    · intro m hm hmc hmr
+      by_cases hmk : m = k
+      · subst hmk
+        exact solver_enforces_margin env isPos d hpos htol hrel rels[m] codes[m] _ hrc
+          (by rw [hl]; exact h.hlen _ hrmem) (h.hfree _ hrmem _ hrmem) (h.hB _ hcmem _ hrmem) (h.hne _ hrmem)
+      · have hmr' : rels[m] ∈ rels := List.getElem_mem hmr
+        have hmc' : codes[m] ∈ codes := List.getElem_mem hmc
+        refine margin_exec_other env rels[m] codes[m].factor codes[k] _ ?_ ?_ ?_ (hmg m (by omega) hmc hmr)
+        · rw [hci]; exact targets_ne h m k hmr hkr hmk
+        · rw [hci]; exact h.hfree _ hrmem _ hmr'
+        · rw [hci]; exact h.hB _ hmc' _ hrmem
+
+/-- coordinates that are not written between two first-pass states agree -/
+private theorem coord (h : Indep env isPos d rels codes x) (hpos : ∀ c, isPos c = true → 0 < env.ι c)
+    (htol : 0 ≤ env.tol) (hrel : 0 ≤ env.rel) (k : Nat) :
+    ∀ j, k ≤ j → j ≤ codes.length → ∀ m (hmr : m < rels.length), (m < k ∨ j ≤ m) →
+      (S env codes x j).getD rels[m].i 0 = (S env codes x k).getD rels[m].i 0 := by
+  intro j hkj
+  induction j, hkj using Nat.le_induction with
+  | base => intro _ m hmr _; rfl
+  | succ j hkj ih =>
+    intro hj m hmr hm
+    have hjc : j < codes.length := by omega
+    obtain ⟨hl, hfr, _⟩ := inv h hpos htol hrel j (by omega)
+    obtain ⟨hs, _⟩ := step h j hjc hl hfr
+    obtain ⟨hjr, _, hci, _, _⟩ := pair_at h j hjc
+    rw [hs, exec_getD_ne env _ _ _ (by rw [hci]; exact targets_ne h m j hmr hjr (by omega))]
+    exact ih (by omega) m hmr (by omega)
+
+/-- **`join=and_` on an independent system always succeeds, without a random draw, at a vector satisfying ALL
+relations.** (Completes `join_and_all_hold`: the success it assumes is guaranteed for systems whose left-hand variables
+are distinct and feed no right-hand side, provided no statement raises.) -/
+theorem join_and_independent (h : Indep env isPos d rels codes x) (hpos : ∀ c, isPos c = true → 0 < env.ι c)
+    (htol : 0 ≤ env.tol) (hrel : 0 ≤ env.rel) (hstrict : ∀ r ∈ rels, r.cmp.strict = true → 0 < env.tol)
+    (hn : codes ≠ []) (draws : List (List K)) :
+    ∃ y t l st, joinAnd env codes x draws = (.success y t l, st) ∧ st.draws = 0 ∧ ∀ r ∈ rels, r.holds env y := by
+  have hn' : 0 < codes.length := List.length_pos_iff.mpr hn
+  have hleq := h.hrec.length_eq
+  obtain ⟨hlN, hfrN, hmgN⟩ := inv h hpos htol hrel codes.length (Nat.le_refl _)
+  have hok : ∀ k, k < codes.length →
+      (Comb.applyM (member env codes (k % codes.length)) (S env codes x k)).2 = false := by
+    intro k hk
+    obtain ⟨hl, hfr, _⟩ := inv h hpos htol hrel k (by omega)
+    exact (step h k hk hl hfr).2
+  have hfix : ∀ j, member env codes (j % codes.length) (S env codes x codes.length) = some (S env codes x codes.length) := by
+    intro j
+    have hlt : j % codes.length < codes.length := Nat.mod_lt _ hn'
+    obtain ⟨hjr, hrc, _, _, hcmem⟩ := pair_at h _ hlt
+    unfold member
+    rw [List.getElem?_eq_getElem hlt]
+    simp only
+    rw [if_pos (h.hdef _ hcmem _ hlN hfrN),
+      solver_identity_partial env isPos d _ _ _ hrc (hmgN _ hlt hlt hjr)]
+  have hmono : ∀ k, 1 ≤ k → k ≤ codes.length → S env codes x k = S env codes x codes.length →
+      ∀ k', k ≤ k' → k' ≤ codes.length → S env codes x k' = S env codes x codes.length := by
+    intro k _ hk heq k' hkk'
+    induction k', hkk' using Nat.le_induction with
+    | base => intro _; exact heq
+    | succ k' hkk' ih =>
+      intro hk'
+      have hk'c : k' < codes.length := by omega
+      have ihk := ih (by omega)
+      obtain ⟨hl, hfr, _⟩ := inv h hpos htol hrel k' (by omega)
+      obtain ⟨hs, _⟩ := step h k' hk'c hl hfr
+      obtain ⟨hk'r, _, hci, hrmem, _⟩ := pair_at h k' hk'c
+      -- the coordinate written at step k' is not written again, and the state before it already equals the final one
+      have hc := coord h hpos htol hrel (k' + 1) codes.length (by omega) (Nat.le_refl _) k' hk'r (Or.inl (by omega))
+      have hself : (S env codes x (k' + 1)).getD rels[k'].i 0 = codes[k'].e.eval env (S env codes x k') := by
+        rw [hs]
+        have := exec_getD_self env codes[k'] (S env codes x k') (by rw [hci, hl]; exact h.hlen _ hrmem)
+        rw [hci] at this; exact this
+      have hv : codes[k'].e.eval env (S env codes x k') = (S env codes x k').getD rels[k'].i 0 := by
+        rw [← hself, ← hc, ihk]
+      rw [hs]
+      unfold Assign.exec
+      rw [hv, hci, set_getD_self]
+      exact ihk
+  obtain ⟨t, l, st, hr, hd⟩ := Comb.and_succeeds (member env codes) (fun d _ => d) codes.length (100 * codes.length) x draws
+    hn' (by omega) hok hfix hmono
+  refine ⟨_, t, l, st, hr, hd, ?_⟩
+  intro r hrm
+  obtain ⟨m, hm, rfl⟩ := List.getElem_of_mem hrm
+  have hmc : m < codes.length := by omega
+  obtain ⟨_, hrc, _, _, _⟩ := pair_at h m hmc
+  refine margin_holds env htol hrel rels[m] codes[m].factor _ ?_ (hstrict _ hrm) (hmgN m hmc hmc hm)
+  intro hc
+  exact isBool_eval_nonneg env _ _ ((recognise_spec hrc).2.1 hc)
+
+end
+
 /-! ## non-vacuity: the hypotheses are satisfiable by a concrete, non-trivial instance -/
 
 /-- `x0 <= x1*3` (no `!=` lines), numerals read as rationals, `tol = rel = 1/1000`, at `x = [10, 2]` -/
@@ -852,5 +1053,22 @@ example :
     (List.zipWith (fun r c => recognise (fun c => decide (0 < c)) 1 r c) rels codes = [true, true]) ∧
     (∀ r ∈ rels, r.rhs.mentions r.i = false) := by
   decide
+
+/-- the independent system `x0 > x2`, `x1 != 5` (statements as the parser emits them) at `[0, 0, 0]` satisfies `Indep` -/
+example :
+    Indep (K := ℚ) (C := Nat) { ι := fun n => (n : ℚ), tol := 1 / 1000, rel := 1 / 1000 } (fun c => decide (0 < c)) 1
+      [⟨0, .gt, .var 2⟩, ⟨1, .ne, .num 5⟩]
+      [emit (⟨0, .gt, .var 2⟩ : Rel Nat) [] 11, emit ⟨1, .ne, .num 5⟩ [] 11] [0, 0, 0] where
+  hrec := List.Forall₂.cons (by decide) (List.Forall₂.cons (by decide) List.Forall₂.nil)
+  hnodup := by decide
+  hfree := by decide
+  hB := by decide
+  hlen := by decide
+  hne := by intro _ _ _; norm_num
+  hdef := by
+    intro c hc z hz _
+    simp only [List.mem_cons, List.mem_nil_iff, or_false] at hc
+    rcases hc with rfl | rfl <;>
+      simp [emit, emitG, anyEq, Assign.defined, Expr.defined, hz]
 
 end MysticVerif.C13
